@@ -240,6 +240,7 @@ func cmdProp(args []string) {
 		replayIndirectBudget = 240 * time.Second
 	}
 	var known []string
+	var unreachable []string
 	var obRecords []map[string]any
 	var samples []any
 	for _, u := range units {
@@ -251,7 +252,12 @@ func cmdProp(args []string) {
 			if ob.Kind == "vacuity" {
 				rec["kind"] = "vacuity (must be satisfiable)"
 				obRecords = append(obRecords, rec)
-				if ob.Result == "unsat" {
+				if ob.Result == "unsat" && strings.Contains(ob.Name, "#vacuity#return") {
+					// a return that cannot be reached under the precondition is legal (defensive code);
+					// only an unreachable function exit or an unsatisfiable precondition is an alarm
+					rec["note"] = "return path unreachable under the precondition"
+					unreachable = append(unreachable, ob.Name)
+				} else if ob.Result == "unsat" {
 					fail(ob.Name, map[string]any{"error": "vacuity guard: precondition/exit path is unsatisfiable; contract or code makes the function unreachable", "file": ob.File}, true)
 				}
 				continue
@@ -306,7 +312,8 @@ func cmdProp(args []string) {
 			fmt.Printf("note: known finding for %s names an obligation that is not generated: %s\n", cfg.ID, f.Obligation)
 		}
 	}
-	cov := map[string]any{"total": total, "discharged": discharged, "records": obRecords, "samples": samples, "known": known}
+	_ = unreachable
+	cov := map[string]any{"unreachable": unreachable, "total": total, "discharged": discharged, "records": obRecords, "samples": samples, "known": known}
 	writeEvidence(*verif, &cfg, *tier, seed, units, cov, time.Since(t0).Seconds(), violations, ctx, *noEvidence)
 	if *verbose {
 		for _, r := range obRecords {
@@ -431,6 +438,7 @@ func writeEvidence(verif string, cfg *PropCfg, tier string, seed int, units []*U
 		coverage["obligation_records"] = cov["records"]
 		coverage["samples"] = cov["samples"]
 		coverage["known_findings"] = cov["known"]
+		coverage["unreachable_returns"] = cov["unreachable"]
 	} else {
 		coverage["obligations"] = 0
 		coverage["discharged"] = 0
